@@ -58,8 +58,10 @@ class KexDH:  # pragma: nocover
         self.__hostkey_e = 0  # pylint: disable=unused-private-member
         self.__hostkey_n = 0  # pylint: disable=unused-private-member
         self.__hostkey_n_len = 0  # Length of the host key modulus.
+        self.__hostkey_n_bits = 0  # Exact size of the host key modulus, in bits (RSA keys only).
         self.__ca_key_type = ''  # Type of CA key ('ssh-rsa', etc).
         self.__ca_n_len = 0  # Length of the CA key modulus (if hostkey is a cert).
+        self.__ca_n_bits = 0  # Exact size of the CA key modulus, in bits (RSA CA keys only).
 
     def set_params(self, g: int, p: int) -> None:
         self.__g = g
@@ -88,8 +90,10 @@ class KexDH:  # pragma: nocover
         self.__hostkey_e = 0  # pylint: disable=unused-private-member
         self.__hostkey_n = 0  # pylint: disable=unused-private-member
         self.__hostkey_n_len = 0
+        self.__hostkey_n_bits = 0
         self.__ca_key_type = ''
         self.__ca_n_len = 0
+        self.__ca_n_bits = 0
 
         packet_type, payload = s.read_packet(2, exit_on_error=False)
 
@@ -150,6 +154,10 @@ class KexDH:  # pragma: nocover
             # Here is the modulus size & actual modulus of the host key public key.
             hostkey_n, self.__hostkey_n_len, ptr = KexDH.__get_bytes(hostkey, ptr)
             self.__hostkey_n = int(binascii.hexlify(hostkey_n), 16)  # pylint: disable=unused-private-member
+
+            # For RSA keys, the exact size is the bit length of the modulus.  Estimating it from the length of its encoding is off for sizes that are not multiples of 16 (i.e.: a 2047-bit key would be reported as 2048 bits).
+            if self.__hostkey_type == 'ssh-rsa' or self.__hostkey_type.startswith('ssh-rsa-cert-v0'):
+                self.__hostkey_n_bits = self.__hostkey_n.bit_length()
 
         # If this is a certificate, continue parsing to extract the CA type and key length.  Even though a hostkey type might be 'ssh-ed25519-cert-v01@openssh.com', its CA may still be RSA.
         if self.__hostkey_type.startswith('ssh-rsa-cert-v0') or self.__hostkey_type.startswith('ssh-ed25519-cert-v0'):
@@ -224,6 +232,10 @@ class KexDH:  # pragma: nocover
                 # CA's modulus.  Bingo.
                 ca_key_n, ca_key_n_len, ptr = KexDH.__get_bytes(ca_key, ptr)  # pylint: disable=unused-variable
 
+                # As with RSA host keys, the exact size of an RSA CA key is the bit length of its modulus.
+                if ca_key_type == 'ssh-rsa' and ca_key_n_len > 0:
+                    self.__ca_n_bits = int(binascii.hexlify(ca_key_n), 16).bit_length()
+
                 if ca_key_type.startswith("ecdsa-sha2-nistp") and ca_key_n_len > 0:
                     self.out.d("Found ecdsa-sha2-nistp* CA key type.")
 
@@ -263,6 +275,8 @@ class KexDH:  # pragma: nocover
 
     # Returns the size of the hostkey, in bits.
     def get_hostkey_size(self) -> int:
+        if self.__hostkey_n_bits > 0:
+            return self.__hostkey_n_bits
         return KexDH.__adjust_key_size(self.__hostkey_n_len)
 
     # Returns the CA type ('ssh-rsa', 'ssh-ed25519', etc).
@@ -271,6 +285,8 @@ class KexDH:  # pragma: nocover
 
     # Returns the size of the CA key, in bits.
     def get_ca_size(self) -> int:
+        if self.__ca_n_bits > 0:
+            return self.__ca_n_bits
         return KexDH.__adjust_key_size(self.__ca_n_len)
 
     # Returns the size of the DH modulus, in bits.
